@@ -16,6 +16,10 @@ UNITS = {
     "canary": {"template": "units/canary.vt", "packages": [], "externs": {}},
 }
 
+def load_fn_baseline():
+    p = os.path.join(VERIF, "vx", "fn_baseline.json")
+    return json.load(open(p)) if os.path.exists(p) else {}
+
 def load_props():
     return json.load(open(os.path.join(VERIF, "vx", "props.json")))
 
@@ -295,6 +299,8 @@ def run_check(pid, tier, seed):
     needs_twin, want_cex = [], []
     standin_harnesses = []
     twins = props.get("_twins", {})
+    fn_baseline = load_fn_baseline()
+    crosscheck = {}     # qname -> list of twin harness names: Verus failed on CHANGED text of a function whose proof needs scaffolding
     # ---- E1 Verus
     for unit in P.get("units", []):
         try:
@@ -365,6 +371,14 @@ def run_check(pid, tier, seed):
                 elif fl:
                     ent["status"] = "FAILED"
                     want_cex.append((unit, rec))
+                    key = "%s/%s" % (unit, rec.qname)
+                    changed = key in fn_baseline and fn_baseline[key] != getattr(rec, "src_hash", None)
+                    scaffold = any(k != "spec" for k, _ in rec.clauses)
+                    if changed and scaffold and twins.get(key) and all(f["kind"] in ("postcondition", "assertion", "invariant") for f in fl):
+                        # the proof of this function relies on invariants / closure contracts / hints written for the
+                        # committed text; on CHANGED text a failed proof alone is not evidence - its twins arbitrate
+                        crosscheck[rec.qname] = [h["harness"] for h in twins[key]]
+                        ent["status"] = "FAILED in Verus on changed text - bounded twins arbitrate"
                 else:
                     ent["status"] = "undecided"
                 if len(samples) < 6 and rec.clauses:
@@ -459,6 +473,15 @@ def run_check(pid, tier, seed):
             for a in h.get("assumes", []):
                 if a not in assumptions:
                     assumptions.append(a)
+    # ---- cross-check rule: a Verus failure on the changed text of a scaffolded function stands only if a twin agrees
+    if crosscheck and harnesses:
+        status = {h["harness"]: res["status"] for h, res in kres}
+        for qn, hs in crosscheck.items():
+            sts = [status.get(h) for h in hs]
+            if sts and all(st == "SUCCESSFUL" for st in sts):
+                violations = [v for v in violations if v.get("fn") != qn]
+                undecided.append("the Verus proof of %s does not go through on the changed text, but its bounded twins (%s) find no deviation "
+                                 "from the contract: the proof scaffolding (invariants, closure contracts, hints) may simply not fit the refactored text" % (qn, ", ".join(hs)))
     # ---- E3 native witnesses of derived refutations (a lemma proves the negation of a sentence of the
     # property from the contracts; the witness replays an instance on the real code)
     for w in P.get("witnesses", []):
